@@ -119,7 +119,18 @@ void stack_push(stack * s, void * element) {
 	s->element[s->size++] = element;
 }
 void * stack_pop(stack * s) { if (s->size == 0) { return NULL; } return s->element[--s->size]; }
-void * stack_peek_index(stack * s, size_t index) { return index >= s->size ? NULL : s->element[index]; }
+stack * g_peek_stack; size_t g_peek_idx;      /* provenance of the last entry read: which stack, which index */
+void * stack_peek_index(stack * s, size_t index) { g_peek_stack = s; g_peek_idx = index; return index >= s->size ? NULL : s->element[index]; }
+
+/* ------------------------------------------------------------------ my_strdup (static in transclude.c: strlen + malloc + strcpy) by contract:
+ * a fresh string, different from every other object.  Its malloc would sit inside the marker loop, which CBMC 6.11 DFCC cannot handle
+ * under a loop contract; the copies come from a harness array of symbolic size instead (identity only, never written). */
+char * g_copies; size_t g_ncopies, g_copy_next;
+char * __CPROVER_file_local_transclude_c_my_strdup(const char * source) {
+	ASSERT(source == g_p0->fp.d.str && g_p0->fp.live, "my_strdup: the string copied into the manifest is the candidate path");
+	ASSUME(g_copy_next < g_ncopies);
+	return g_copies + g_copy_next++;
+}
 
 /* ------------------------------------------------------------------ path helpers (file.c): opaque strings */
 static char * str_fresh(void) { size_t n; ASSUME(n >= 1 && n <= DSMAX); char * s = malloc(n); s[n - 1] = 0; return s; }
@@ -166,8 +177,9 @@ char * strncpy(char * dst, const char * src, size_t n) {
 int strncmp(const char * a, const char * b, size_t n) { int r; return r; }
 int strcmp(const char * a, const char * b) {
 	int r;
-	if (g_stackp && g_k < g_stackp->size && b == (const char *)g_stackp->element[g_k]) { if (r != 0) { g_hit = true; } else { g_eq = true; } }
-	if (g_manifest && g_mk < g_manifest->size && b == (const char *)g_manifest->element[g_mk]) { if (r != 0) { g_mhit = true; } else { g_meq = true; } }
+	/* which entry is b?  decided by where it was read from (the last stack_peek_index), not by its address */
+	if (g_stackp && g_peek_stack == g_stackp && g_peek_idx == g_k && g_k < g_stackp->size && b == (const char *)g_stackp->element[g_k]) { if (r != 0) { g_hit = true; } else { g_eq = true; } }
+	if (g_manifest && g_peek_stack == g_manifest && g_peek_idx == g_mk && g_mk < g_manifest->size && b == (const char *)g_manifest->element[g_mk]) { if (r != 0) { g_mhit = true; } else { g_meq = true; } }
 	return r;
 }
 size_t strlen(const char * s) { ASSERT(s == g_p0->fp.d.str, "strlen of the candidate path"); return g_p0->fp.d.currentStringLength; }
@@ -189,10 +201,13 @@ DString * scan_file(const char * fname) {
  * The ghost indices are taken below the capacities (an index at or above the size makes the statement vacuous anyway). */
 void mmd_transclude_source(DString * source, const char * search_path, const char * source_path, short format, stack * parsed, stack * manifest);
 #ifdef WITH_MANIFEST
-#define PRE_MAN (manifest != NULL && manifest == g_manifest && ST_OK(manifest) && manifest != parsed && g_mk < (size_t)manifest->capacity)
+/* the manifest owns its strings: every entry is a private copy made by my_strdup (ghost: a pointer into g_copies) */
+#define MAN_OWNS (g_mk >= manifest->size || __CPROVER_same_object(manifest->element[g_mk], g_copies))
+#define PRE_MAN (manifest != NULL && manifest == g_manifest && ST_OK(manifest) && manifest != parsed && g_mk < (size_t)manifest->capacity \
+	&& (parsed == NULL || manifest->element != parsed->element) && g_copy_next <= g_ncopies && MAN_OWNS)
 #define POST_MAN (ST_OK(manifest) && manifest->size >= OLD(manifest->size) && manifest->capacity == OLD(manifest->capacity) && manifest->element == OLD(manifest->element) \
-	&& (g_mk >= OLD(manifest->size) || manifest->element[g_mk] == OLD(manifest->element[g_mk])))
-#define FRAME_MAN , manifest->size, __CPROVER_object_whole(manifest->element)
+	&& (g_mk >= OLD(manifest->size) || manifest->element[g_mk] == OLD(manifest->element[g_mk])) && g_copy_next <= g_ncopies && MAN_OWNS)
+#define FRAME_MAN , manifest->size, __CPROVER_object_whole(manifest->element), g_copy_next
 #else
 #define PRE_MAN (manifest == NULL && g_manifest == NULL)
 #define POST_MAN 1
@@ -214,7 +229,7 @@ void mmd_transclude_source(DString * source, const char * search_path, const cha
 /* own pool + the pool of nested calls for the call under verification; only its own (opaque) pool for a nested call */
 #define FRAME_POOLS __CPROVER_assigns(MINE(source): __CPROVER_object_whole(g_p0), __CPROVER_object_whole(g_p1) FRAME_T_MINE) \
 	__CPROVER_assigns(THEIRS(source): __CPROVER_object_whole(g_p1) FRAME_T_THEIRS)
-#define FRAME_COMMON source->currentStringLength, g_hit, g_eq, g_mhit, g_meq, g_last FRAME_MAN
+#define FRAME_COMMON source->currentStringLength, g_hit, g_eq, g_mhit, g_meq, g_last, g_peek_stack, g_peek_idx FRAME_MAN
 
 /* one contract for both kinds of call.  parsed == NULL (the public entries: the function makes its own stack) or parsed == the stack of
  * files being expanded (what every recursive call passes).  __CPROVER_old cannot take a conditional expression and must not read
@@ -246,12 +261,16 @@ static void setup(stack * parsed) {
 	g_source = &S->d;
 #ifdef WITH_MANIFEST
 	g_man = st_in();
+	{ IN(size_t, nc); ASSUME(nc >= 1 && nc <= CAPMAX); g_ncopies = nc; g_copies = ALLOC(nc); IN(size_t, cn); ASSUME(cn <= nc); g_copy_next = cn; }
+	{ IN(size_t, mk); IN(size_t, c); ASSUME(mk < (size_t)g_man->capacity && c < g_ncopies); g_mk = mk; g_man->element[mk] = g_copies + c; }     /* the entry the ghost index looks at is an owned copy */
 #else
 	g_man = NULL;
 #endif
+	g_peek_stack = NULL; g_peek_idx = 0;
 	g_src = g_source; g_stackp = parsed; g_manifest = g_man; g_last = NULL;
 	g_nostack.size = 0; g_nostack.capacity = 1; g_nostack.element = g_noelement; g_st[0] = &g_nostack; g_st[1] = parsed;
-	{ IN(size_t, k); g_k = parsed ? k : 0; } { IN(size_t, mk); g_mk = mk; }
+	{ IN(size_t, k); g_k = parsed ? k : 0; }
+	if (parsed) { ASSUME(g_k < (size_t)parsed->capacity); parsed->element[g_k] = str_fresh(); }     /* the path of an enclosing file: some other string object */
 	{ IN(bool, hit); g_hit = hit; } g_eq = false; g_mhit = false; g_meq = false;
 	{ IN(short, fmt); g_format = fmt; } IN(bool, nosearch);
 	g_search_path = nosearch ? NULL : str_fresh();
